@@ -157,6 +157,31 @@ def run(prog, rep, tier):
     if adds_total != len(ws):
         rep.violation(R193, PL + "|total-add-sites", "processing_loop: %d direct additions to the total printed bytes for %d direct writes" % (adds_total, len(ws)))
 
+    # ------------------------------------------------------------ R19.10 lines written outside the printers are counted too
+    # The message separator comes from the command line and may contain newlines (`--separator '\n'`).
+    # Wherever its bytes are added to the total, the lines it adds to stdout have to be added to the
+    # total line count, or "Printed lines" is short by one per message.
+    R1910 = rep.rule("R19.10", "a direct write of non-constant bytes (the separator) is counted in the total lines as well as in the total bytes")
+    n1910 = 0
+    for i, w in enumerate(ws):
+        os_ = b.origins(w.args[0], through_calls=c13.TH)
+        if os_ and all(x[0] == "const" for x in os_):
+            continue
+        n1910 += 1
+        line_add = None
+        for bb in sorted(b.live):
+            if not b.dominates(w.target, bb):
+                continue
+            for s in b.stmts(bb):
+                if s[0] == "=" and s[1][0] == tl and len(s[1]) == 2 and s[1][1][2] == "lines" and s[2][0] == "bin" and s[2][1].startswith("Add"):
+                    line_add = bb
+        rep.examined(R1910, "%s|write_stdout#%d" % (PL, i), sample={"line": w.line, "written": sorted(str(x[:2]) for x in os_)[:3], "total_lines_add_found": line_add is not None})
+        if line_add is None:
+            rep.violation(R1910, "%s|write@%s|lines" % (PL, sorted(str((x[0], x[1])) for x in os_)), "processing_loop: the bytes written by write_stdout (line %d) come from the command line (--separator) and may contain newlines, "
+                          "but nothing is added to the total printed lines: `--separator '\\n'` writes twice as many lines as 'Printed lines' reports" % w.line)
+    if n1910 == 0:
+        raise CheckerError("R19.10: no direct write of non-constant bytes found (the separator writes)")
+
     # ------------------------------------------------------------ R19.7 sibling agreement of the four message arms
     R197 = rep.rule("R19.7", "the four message arms of the coordinator perform the same bookkeeping steps")
     shapes = {}
